@@ -162,6 +162,18 @@ Theorem C20_success_implies : forall ex p d, exchange_keys ex p = (d, 0) ->
 Proof. exact exchange_success_facts. Qed.
 Print Assumptions C20_success_implies.
 
+(* for ANY peer and byte stream, either transport: what a successful exchange leaves in the
+   fetcher comes from the bytes this peer sent on this connection - every cookie of the pool is a
+   piece of the stream, the server is the key-exchange host or a piece of the stream, the port is
+   the standard port or two adjacent bytes of it (the clause the oracle applies to scripts that
+   are not strict; nothing invented, nothing left over from an earlier exchange) *)
+Theorem C20_data_come_from_the_stream : forall quic ex st p d, exchange_keys_of quic ex st p = (d, 0) ->
+  (forall c, In c (k_cookies d) -> infix c (p_stream p)) /\
+  (k_server d = p_host p \/ infix (k_server d) (p_stream p)) /\
+  (k_port d = std_ntp_port quic \/ exists a b, infix [a; b] (p_stream p) /\ k_port d = a * 256 + b).
+Proof. exact exchange_from_stream_of. Qed.
+Print Assumptions C20_data_come_from_the_stream.
+
 (* unrecognised non-critical records can be deleted from (or inserted into) a stream without
    changing data or result *)
 Theorem C20_noncritical_ignored : forall rs s d, Forall (fun r => rec_canonical r = true) rs ->
